@@ -3,7 +3,7 @@ from checks.tsutil import *
 from checks.orswotgen import *
 
 ID = 'C08'
-LEAN_MODULES = ['C08', 'C08b']
+LEAN_MODULES = ['C08', 'C08b', 'C08c']
 RULE = ('one case = 1-3 replicas (OrSWotSet<2>, some <1>) that each receive the same pool of inserts/deletes (<=3 origins, <=4 keys, distinct stamps) in their own '
         'arrival order and through random sources, with purge_old_deletes calls inserted at arbitrary positions; half of the cases are timely by construction (every '
         'operation arrives less than F after everything the replica had applied: stamps spread over up to 3 hours but delivered in near-stamp order), the rest are untimely '
